@@ -11,7 +11,7 @@ from harness.steps import HUNDRED_Y, process_step
 
 def h06_step(S):
     """One completed iteration from an arbitrary valid state of a recurring message."""
-    o = process_step(S, policy_kind=1)
+    o = process_step(S, policy_kind=1, explicit_retry=True, ttl=True)
     if not o.recurring:
         S.cover("not-recurring")
         return
@@ -67,7 +67,10 @@ def h06_step(S):
         S.check("successor-counter-zero-on-delivery", o.delivered[2].retries.already_tried == 0)
     else:
         S.cover("successor-held-back")
-        S.check("successor-held-only-while-not-due", listen <= Sn)
+        # its time-to-live runs from this rescheduling, not from anything earlier (deferred_until, first creation)
+        expired = (listen > o.now + o.ttl) if o.has_ttl else False
+        S.check("successor-held-only-while-not-due", any_of(listen <= Sn, expired),
+                info="the next iteration is due, within its restarted time-to-live, and was not delivered")
 
 
 def h06_chain(S, iterations=3):
